@@ -318,7 +318,8 @@ pub fn opcode_for(arch: Arch, f: &Func) -> Option<u32> {
                         return None;
                     }
                     let adjust = (8 + 8 * pushes.len() as u64) / 8;
-                    if adjust > 7 {
+                    if adjust > 7 || size / 8 > 0xffff {
+                        // a compiler falls back to DWARF for frames no compact encoding can describe
                         return None;
                     }
                     Some(0x0300_0000 | ((imm_off as u32) << 16) | ((adjust as u32) << 13) | ((regs.len() as u32) << 10) | perm)
@@ -553,6 +554,8 @@ fn scenario<H: ArchH>(rep: &mut Report, p: &mut Prng, arch: Arch, id: u64) {
     }
     // ------------------------------------------------------------ ground truth walks
     let inner = &funcs[chain.last().unwrap().0];
+    // known finding F26: a frame of the chain whose saved rbp lies beyond the reach of the rule field
+    let f26 = if arch == Arch::X64 && chain.iter().any(|(fi, _)| funcs[*fi].x64_rbp_slot_beyond_rule_field()) { "-rbp-slot-beyond-i16-rule-field" } else { "" };
     for stop in 0..inner.insns.len() {
         let mut ch = chain.clone();
         ch.last_mut().unwrap().1 = stop;
@@ -578,7 +581,7 @@ fn scenario<H: ArchH>(rep: &mut Report, p: &mut Prng, arch: Arch, id: u64) {
             rep.add_finding(Finding {
                 props: vec!["C02".into()],
                 kind: "oracle".into(),
-                key: format!("macho-{}-walk-differs-from-true-chain", arch.name()),
+                key: format!("macho-{}-walk-differs-from-true-chain{f26}", arch.name()),
                 what: format!("the true call chain is {} (innermost function shape {:?}, stopped before instruction {} of {})", want.join(","), inner.shape, stop, inner.insns.len()),
                 case: lines.join("\n"),
                 impl_out: got.clone(),
@@ -643,7 +646,7 @@ fn scenario<H: ArchH>(rep: &mut Report, p: &mut Prng, arch: Arch, id: u64) {
                     rep.add_finding(Finding {
                         props: if at_boundary { vec!["C02".into(), "C13".into()] } else { vec!["C02".into()] },
                         kind: "oracle".into(),
-                        key: if at_boundary { format!("macho-{}-return-address-at-boundary-unwound-with-the-wrong-function", arch.name()) } else { format!("macho-{}-step-differs-from-true-caller-state", arch.name()) },
+                        key: if at_boundary { format!("macho-{}-return-address-at-boundary-unwound-with-the-wrong-function", arch.name()) } else { format!("macho-{}-step-differs-from-true-caller-state{}", arch.name(), if arch == Arch::X64 && funcs[chain[chain.len() - 1 - i].0].x64_rbp_slot_beyond_rule_field() { "-rbp-slot-beyond-i16-rule-field" } else { "" }) },
                         what: format!("the caller is at {:#x} with sp={:#x} fp={:#x}", nx.addr & mask, nx.mach.sp, nx.mach.fp),
                         case: lines.join("\n"),
                         impl_out: ans.clone(),
